@@ -215,7 +215,7 @@ Inductive instr :=
 | KFlushExc (c : chan)          (* _flush_exception: except OSError / Exception: will_close = True; (False, True) *)
 | KRelO (c : chan)              (* end of `with self.outbuf_lock:` / `finally: release()` *)
 | KRelR (c : chan)              (* end of `with self.requests_lock:` *)
-| KSvcTry (c : chan)            (* service: except ClientDisconnected / except Exception around task.service() *)
+| KSvcTry (c : chan)            (* service: except ClientDisconnected / except BaseException around task.service() *)
 | KSvcTry2 (c : chan)           (* service: `except ClientDisconnected` around the error task *)
 | KWorkerTop (c : chan).        (* handler_thread: `except BaseException: log` *)
 
@@ -396,10 +396,12 @@ Definition hclose_fd (f : fdt) : list instr := herror f.
 (* HTTPChannel._flush_some(do_close=dc), channel.py:260-307 *)
 Definition flush_some (c : chan) (dc : bool) : list instr := [IFlushStart c dc].
 
-(* HTTPChannel.send_continue, channel.py:173-189 (calls _flush_some() with the
-   DEFAULT do_close=True, whichever thread runs it) *)
+(* HTTPChannel.send_continue (do_close is True when received() calls it on the I/O thread,
+   [wc_close g] when service() calls it on a worker) *)
+(* since /repo 48f7fa0 the flush goes through _flush_exception: an errno that is not a disconnect
+   (or anything else _flush_some raises) sets will_close instead of escaping received() / service() *)
 Definition send_continue_dc (c : chan) (dc : bool) : list instr :=
-  [IContPre c; IAcqO c; IContAppend c] ++ flush_some c dc ++ [KRelO c].
+  [IContPre c; IAcqO c; IContAppend c] ++ flush_some c dc ++ [KFlushExc c; KRelO c].
 Definition send_continue (c : chan) : list instr := send_continue_dc c true.
 
 (* the event handlers as dispatched by wasyncore for a channel *)
@@ -846,8 +848,7 @@ Definition frame (t : tid) (k : instr) (x : exn) (s : state) : fres :=
   | KSvcTry c =>
     match x with
     | XClientDisconnected => FCatch (setth s t (set_lcof me true)) [] [LCaught t x]
-    | XReraised => FPass s
-    | _ => FCatch s [IErrTask c] [LCaught t x]
+    | _ => FCatch s [IErrTask c] [LCaught t x]        (* `except BaseException:` since /repo 72e39ad *)
     end
   | KSvcTry2 c =>
     match x with
